@@ -409,6 +409,13 @@ func (ms *RocksStorage) ApplySnapshot(snap pb.Snapshot) error {
 	if err != nil {
 		return err
 	}
+	// the snapshot replaces the whole log (as in MemoryStorage), the entries above
+	// the snapshot index belong to a log which conflicts with it and must not be
+	// seen by LastIndex/Term any more.
+	err = ms.deleteFrom(batch, e.Index+1)
+	if err != nil {
+		return err
+	}
 	return ms.commitBatch(batch)
 }
 
